@@ -750,7 +750,7 @@ PRELUDE2 = r'''
    sound envelope of the real function (libm itself is trusted, not encoded); natively they are libm. */
 #ifdef VERIF_CBMC
 double nondet_irm_double(void);
-static double ir_exp(double x) { double r = nondet_irm_double(); if(x != x) return x; __CPROVER_assume(r == r && r >= 0.0);
+static double ir_exp_env(double x) { double r = nondet_irm_double(); if(x != x) return x; __CPROVER_assume(r == r && r >= 0.0);
   if(x > 709.79) return __builtin_inf(); if(x < -745.2) return 0.0; __CPROVER_assume(r < __builtin_inf());
   if(x <= 0.0) __CPROVER_assume(r <= 1.0); if(x >= 0.0) __CPROVER_assume(r >= 1.0 && r >= 1.0 + x);
   if(x <= 709.0 && x >= -700.0) __CPROVER_assume(r > 0.0);
@@ -763,9 +763,22 @@ static double ir_exp(double x) { double r = nondet_irm_double(); if(x != x) retu
   if(x >= 100.0) __CPROVER_assume(r >= 2.6881171e43); if(x >= 300.0) __CPROVER_assume(r >= 1.9424263e130);
   if(x >= -2.0) __CPROVER_assume(r >= 0.13533528); if(x >= -8.0) __CPROVER_assume(r >= 0.00033546262); if(x >= -20.0) __CPROVER_assume(r >= 2.0611536e-9);
   return r; }
-static double ir_log(double x) { double r = nondet_irm_double(); if(x != x || x < 0.0) return __builtin_nan(""); if(x == 0.0) return -__builtin_inf();
+static double ir_log_env(double x) { double r = nondet_irm_double(); if(x != x || x < 0.0) return __builtin_nan(""); if(x == 0.0) return -__builtin_inf();
   if(x == __builtin_inf()) return x; __CPROVER_assume(r == r && r > -746.0 && r < 710.0); if(x >= 1.0) __CPROVER_assume(r >= 0.0 && r <= x - 1.0);
-  if(x <= 1.0) __CPROVER_assume(r <= 0.0); return r; }
+  if(x <= 1.0) __CPROVER_assume(r <= 0.0);
+  if(x <= 1108075.0) __CPROVER_assume(r <= 13.918144); if(x >= 1108076.0) __CPROVER_assume(r >= 13.918143);
+  if(x <= 260144641.0) __CPROVER_assume(r <= 19.376788); if(x >= 260144641.0) __CPROVER_assume(r >= 19.376787);
+  return r; }
+/* the stubs are functions: the same argument gives the same value, and values are monotone in the
+   argument (two-entry memo; enough for the 2-safety harnesses that call a kernel twice) */
+static double ir_exp_x[2], ir_exp_r[2]; static int ir_exp_n;
+static double ir_exp(double x) { int i; double r; for(i = 0; i < 2; i++) if(i < ir_exp_n && ir_exp_x[i] == x) return ir_exp_r[i];
+  r = ir_exp_env(x); for(i = 0; i < 2; i++) if(i < ir_exp_n && r == r) { if(x <= ir_exp_x[i]) __CPROVER_assume(r <= ir_exp_r[i]); if(x >= ir_exp_x[i]) __CPROVER_assume(r >= ir_exp_r[i]); }
+  if(ir_exp_n < 2) { ir_exp_x[ir_exp_n] = x; ir_exp_r[ir_exp_n] = r; ir_exp_n++; } return r; }
+static double ir_log_x[2], ir_log_r[2]; static int ir_log_n;
+static double ir_log(double x) { int i; double r; for(i = 0; i < 2; i++) if(i < ir_log_n && ir_log_x[i] == x) return ir_log_r[i];
+  r = ir_log_env(x); for(i = 0; i < 2; i++) if(i < ir_log_n && r == r) { if(x <= ir_log_x[i]) __CPROVER_assume(r <= ir_log_r[i]); if(x >= ir_log_x[i]) __CPROVER_assume(r >= ir_log_r[i]); }
+  if(ir_log_n < 2) { ir_log_x[ir_log_n] = x; ir_log_r[ir_log_n] = r; ir_log_n++; } return r; }
 static double ir_sin(double x) { double r = nondet_irm_double(); if(x != x || x == __builtin_inf() || x == -__builtin_inf()) return __builtin_nan("");
   __CPROVER_assume(r >= -1.0 && r <= 1.0); return r; }
 static double ir_pow(double x, double y) { double r = nondet_irm_double(); if(x > 0.0 && x < __builtin_inf() && y == y) { __CPROVER_assume(r == r && r >= 0.0);
